@@ -25,11 +25,51 @@ func vC35ParamCall(v string) (name string, ok bool, panicked bool) {
 	return name, ok, false
 }
 
+// vC35Q prints a byte string as a Gallina list, run-length encoding long periodic stretches (rp n unit):
+// coqc parses list literals slowly, and the long generated paths are repetitions.
+func vC35Q(s string) string {
+	if len(s) < 96 {
+		return cqBytes(s)
+	}
+	var parts []string
+	lit := 0
+	i := 0
+	for i < len(s) {
+		best, bestP := 0, 0
+		for p := 1; p <= 3 && i+p <= len(s); p++ {
+			j := i + p
+			for j < len(s) && s[j] == s[j-p] {
+				j++
+			}
+			if reps := (j - i) / p; reps >= 16 && reps*p > best {
+				best, bestP = reps*p, p
+			}
+		}
+		if best > 0 {
+			if lit < i {
+				parts = append(parts, cqBytes(s[lit:i]))
+			}
+			parts = append(parts, "rp "+cqZ(int64(best/bestP))+" "+cqBytes(s[i:i+bestP]))
+			i += best
+			lit = i
+		} else {
+			i++
+		}
+	}
+	if lit < len(s) {
+		parts = append(parts, cqBytes(s[lit:]))
+	}
+	if len(parts) == 1 && !strings.HasPrefix(parts[0], "rp ") {
+		return parts[0]
+	}
+	return "(" + strings.Join(parts, " ++ ") + ")"
+}
+
 func TestVerifC35Param(t *testing.T) {
 	r := vNewRand(vSeed())
 	out := vOpenOut()
 	defer out.Close()
-	n := vN()
+	n := vN()/2 + 20
 	fixed := []string{"", "/", "//", "/a", "a", "a/", "/a/b", "x/", "\\a", "/\x00", "\xff\xff", "/..", "/.", "ab", "/ "}
 	alphabet := []byte("//..ab\n\x00\xff\\%")
 	for i := 0; i < n; i++ {
@@ -52,7 +92,7 @@ func TestVerifC35Param(t *testing.T) {
 			}
 		}
 		name, ok, panicked := vC35ParamCall(p)
-		out.Case(cqApp("CParam", cqBytes(p), cqOpt(ok, cqBytes(name)), cqBool(panicked)),
+		out.Case(cqApp("CParam", vC35Q(p), cqOpt(ok, vC35Q(name)), cqBool(panicked)),
 			map[string]any{"func": "api.paramName", "param": p, "ok": ok, "name": name, "panic": panicked},
 			fmt.Sprintf("param/%s/ok=%v", class, ok), ok)
 	}
